@@ -193,7 +193,7 @@ def emit_ranked(name, const, rules, P):
             f"def {const}Names : List (String × Nat) := [{names}]\n\n"
             f"-- untrusted certificate (rules are listed in rank order; nullable rules as a bit mask), checked by Abnf.wfFast\n"
             f"def {const}Mask : Nat := {mask}\ndef {const}D : Nat := {D2}\n\nend AbnfGen\n")
-    return write_if_changed(os.path.join(GEN_DIR, name + ".lean"), text)
+    return write_if_changed(os.path.join(GEN_DIR, name + ".lean"), text), ordered
 
 
 def emit(name, const, rules, P):
@@ -209,7 +209,109 @@ def emit(name, const, rules, P):
             f"def {const}Nullable : List Bool := [{', '.join('true' if b else 'false' for b in nullable)}]\n"
             f"def {const}Rank : List Nat := [{', '.join(str(v) for v in ranks)}]\n"
             f"def {const}K : Nat := {K}\ndef {const}D : Nat := {D}\n\nend AbnfGen\n")
-    return write_if_changed(os.path.join(GEN_DIR, name + ".lean"), text)
+    return write_if_changed(os.path.join(GEN_DIR, name + ".lean"), text), enc.rules
+
+
+def rule_refs(P, p, out):
+    if isinstance(p, P.Rule):
+        out.append(p)
+    elif isinstance(p, (P.Alternation, P.Concatenation)):
+        for q in p.parsers:
+            rule_refs(P, q, out)
+    elif isinstance(p, P.Option):
+        rule_refs(P, p.parser, out)
+    elif isinstance(p, P.Repetition):
+        rule_refs(P, p.element, out)
+    return out
+
+
+def pair_closure(P, r1, r2, acc, seen):
+    """UNTRUSTED hint for the bisimulation: the seed pair plus every pair of same-named rules reachable on both sides.
+    Lean's verified checker (Abnf/Equiv.lean) decides whether the list is a bisimulation."""
+    if (id(r1), id(r2)) in seen:
+        return
+    seen.add((id(r1), id(r2)))
+    acc.append((r1, r2))
+    d1 = getattr(r1, "definition", None)
+    d2 = getattr(r2, "definition", None)
+    if d1 is None or d2 is None:
+        return
+    byname = {x.name.lower(): x for x in rule_refs(P, d2, [])}
+    for x in rule_refs(P, d1, []):
+        y = byname.get(x.name.lower())
+        if y is not None and hasattr(x, "definition") and hasattr(y, "definition"):
+            pair_closure(P, x, y, acc, seen)
+
+
+def emit_pairs(P, meta_rules, bundled_rules):
+    """Pair lists for the rule-for-rule equivalence obligations of C15 (reader vs bundled rfc7405 / rfc5234) and C19
+    (listed pairs of bundled constructs): indices into metaG / bundledG."""
+    import json
+    import bundled
+    mi = {id(r): k for k, r in enumerate(meta_rules)}
+    bi = {id(r): k for k, r in enumerate(bundled_rules)}
+    from abnf.grammars import rfc5234, rfc7405
+
+    def fmt(pairs):
+        return "[" + ", ".join(f"({a}, {b})" for a, b in pairs) + "]"
+
+    def seeds_fmt(seeds):
+        return "[" + ", ".join(f'("{n}", {a}, {b})' for n, a, b in seeds) + "]"
+
+    def seeds2_fmt(seeds):
+        return "[" + ", ".join(f'("{n1}", "{n2}", {a}, {b})' for n1, n2, a, b in seeds) + "]"
+
+    def reach_mask(starts):
+        """bit mask of the bundled rules reachable from `starts` through definitions (UNTRUSTED hint: Abnf.plainOnG checks
+        that the set is closed under references and free of first-match flags / exclusions)"""
+        seen_r, todo = set(), [r for r in starts if id(r) in bi]
+        while todo:
+            r = todo.pop()
+            if id(r) in seen_r:
+                continue
+            seen_r.add(id(r))
+            d = getattr(r, "definition", None)
+            if d is not None:
+                todo.extend(x for x in rule_refs(P, d, []) if id(x) in bi)
+        return sum(1 << bi[k] for k in seen_r)
+
+    out = []
+    for tag, mod, names in (("7405", rfc7405, META), ("5234", rfc5234, META[:21])):
+        acc, seen, seeds = [], set(), []
+        for n in names:
+            a = P.ABNFGrammarRule.get(n)
+            b = mod.Rule.get(n)
+            if a is None or b is None or id(a) not in mi or id(b) not in bi:
+                seeds.append((n, 10 ** 6, 10 ** 6))  # a missing rule can never be in the pair list: the obligation fails
+                continue
+            seeds.append((n, mi[id(a)], bi[id(b)]))
+            pair_closure(P, a, b, acc, seen)
+        pairs = [(mi[id(a)], bi[id(b)]) for a, b in acc if id(a) in mi and id(b) in bi]
+        out.append(f"def c15Pairs{tag} : List (Nat × Nat) := {fmt(pairs)}")
+        out.append(f"def c15Seeds{tag} : List (String × Nat × Nat) := {seeds_fmt(seeds)}")
+        out.append(f"def c15Mask{tag} : Nat := {reach_mask([b for _, b in acc])}")
+    spec = json.load(open(os.path.join(HERE, "c19_pairs.json")))
+    not_proved = {tuple(x["pair"]) for x in spec.get("not_proved", [])}
+    acc, seen, seeds = [], set(), []
+    for m1, r1, m2, r2 in spec["pairs"]:
+        if (m1, r1, m2, r2) in not_proved:
+            continue
+        a = bundled.load(m1).Rule.get(r1)
+        b = bundled.load(m2).Rule.get(r2)
+        n1, n2 = f"{m1}.Rule.{r1}", f"{m2}.Rule.{r2}"
+        if a is None or b is None or id(a) not in bi or id(b) not in bi:
+            seeds.append((n1, n2, 10 ** 6, 10 ** 6))
+            continue
+        seeds.append((n1, n2, bi[id(a)], bi[id(b)]))
+        pair_closure(P, a, b, acc, seen)
+    pairs = [(bi[id(a)], bi[id(b)]) for a, b in acc if id(a) in bi and id(b) in bi]
+    out.append(f"def c19Pairs : List (Nat × Nat) := {fmt(pairs)}")
+    out.append(f"def c19Seeds : List (String × String × Nat × Nat) := {seeds2_fmt(seeds)}")
+    out.append(f"def c19Mask : Nat := {reach_mask([x for ab in acc for x in ab])}")
+    text = (f"-- GENERATED by harness/extract.py from {lib.REPO}/src/abnf - do not edit\n"
+            "-- UNTRUSTED bisimulation hints (pairs of rule indices), decided by Abnf.equivOk\n"
+            "namespace AbnfGen\n\n" + "\n".join(out) + "\n\nend AbnfGen\n")
+    return write_if_changed(os.path.join(GEN_DIR, "Pairs.lean"), text)
 
 
 def in_subprocess():
@@ -223,8 +325,8 @@ def in_subprocess():
 
 def main():
     P = lib.import_repo()
-    c1 = emit("Core", "coreG", [P.Rule.get(n) for n in CORE], P)
-    c2 = emit("Meta", "metaG", [P.ABNFGrammarRule.get(n) for n in META], P)
+    c1, _ = emit("Core", "coreG", [P.Rule.get(n) for n in CORE], P)
+    c2, meta_rules = emit("Meta", "metaG", [P.ABNFGrammarRule.get(n) for n in META], P)
     # every rule object of every bundled grammar class (with whatever they reach), as ONE grammar
     import bundled
     mods = [bundled.load(m) for m in bundled.module_names()]
@@ -232,8 +334,9 @@ def main():
     for (cls, _), r in P.Rule._obj_map.items():
         if cls.__module__.startswith("abnf.grammars."):
             rules.append(r)
-    c3 = emit_ranked("Bundled", "bundledG", rules, P)
-    print("AbnfGen regenerated:", {"Core": c1, "Meta": c2, "Bundled": c3, "bundled_rules": len(rules)})
+    c3, bundled_rules = emit_ranked("Bundled", "bundledG", rules, P)
+    c4 = emit_pairs(P, meta_rules, bundled_rules)
+    print("AbnfGen regenerated:", {"Core": c1, "Meta": c2, "Bundled": c3, "Pairs": c4, "bundled_rules": len(rules)})
 
 
 if __name__ == "__main__":
